@@ -30,7 +30,7 @@ func vfShapeInput(n int) Input {
 func VfH_C01_shape() {
 	max := 3
 	if vfThorough() {
-		max = 5
+		max = 4
 	}
 	n := vfChoice("textLen", max+1)
 	vfInstallHarfbuzzStub()
